@@ -1,6 +1,7 @@
 package main
 
 import (
+	"crypto/elliptic"
 	"crypto/sha256"
 	"encoding/hex"
 	"encoding/json"
@@ -16,6 +17,7 @@ import (
 	"github.com/nspcc-dev/neo-go/pkg/core/native/noderoles"
 	"github.com/nspcc-dev/neo-go/pkg/core/state"
 	"github.com/nspcc-dev/neo-go/pkg/core/transaction"
+	"github.com/nspcc-dev/neo-go/pkg/crypto/keys"
 	"github.com/nspcc-dev/neo-go/pkg/io"
 	"github.com/nspcc-dev/neo-go/pkg/smartcontract/callflag"
 	"github.com/nspcc-dev/neo-go/pkg/smartcontract/trigger"
@@ -292,6 +294,8 @@ func abstractObs(w *world, bc *core.Blockchain) string {
 	fmt.Fprintf(&sb, "h=%d", bc.BlockHeight())
 	// whitelisted fees: what the cache answers (getWhitelistFeeContracts) and what storage holds
 	fmt.Fprintf(&sb, " wlc=%s wls=%s", joinOrDash(whitelistCached(w, bc)), joinOrDash(whitelistStored(w, bc)))
+	// cached components: what the cache answers / what storage holds
+	fmt.Fprintf(&sb, " set=%s roles=%s mgmt=%s gpb=%s", settingsObs(w, bc), rolesObs(w, bc), mgmtObs(w, bc), gpbObs(w, bc))
 	// policy (through the cache getters)
 	pico := bc.GetBaseExecFee() // picoGAS units after Faun
 	fmt.Fprintf(&sb, " fpb=%d eff=%d sp=%d", bc.FeePerByte(), pico, bc.GetStoragePrice())
@@ -425,6 +429,175 @@ func whitelistStored(w *world, bc *core.Blockchain) []string {
 	})
 	sort.Strings(res)
 	return res
+}
+
+// invokeInts runs read-only native getters (served from the caches) and returns their integer results.
+func invokeInts(w *world, bc *core.Blockchain, calls []chainx.Call) []string {
+	bw := io.NewBufBinWriter()
+	for _, c := range calls {
+		emit.AppCall(bw.BinWriter, c.Hash, c.Method, callflag.ReadOnly, c.Args...)
+	}
+	tx := transaction.New(bw.Bytes(), 0)
+	tx.Signers = []transaction.Signer{{Account: w.net.Account(0)}}
+	res := make([]string, len(calls))
+	for i := range res {
+		res[i] = "err"
+	}
+	ic, err := bc.GetTestVM(trigger.Application, tx, nil)
+	if err != nil {
+		return res
+	}
+	defer ic.Finalize()
+	ic.VM.LoadWithFlags(tx.Script, callflag.ReadOnly)
+	ic.VM.SetGasLimit(100_0000_0000)
+	if err := ic.VM.Run(); err != nil {
+		return res
+	}
+	for i, it := range ic.VM.Estack().ToArray() {
+		if i < len(res) {
+			if v, err := it.TryInteger(); err == nil {
+				res[i] = v.String()
+			}
+		}
+	}
+	return res
+}
+
+func storedInt(bc *core.Blockchain, id int32, key []byte) string {
+	si := bc.GetStorageItem(id, key)
+	if si == nil {
+		return "nil"
+	}
+	return bigFromLE(si)
+}
+
+// settingsObs: scalar settings of Policy / Notary / Oracle / NEO, cached answer / stored value.
+func settingsObs(w *world, bc *core.Blockchain) string {
+	var calls []chainx.Call
+	for _, t := range attrTypes {
+		calls = append(calls, chainx.Call{Hash: nativehashes.PolicyContract, Method: "getAttributeFee", Args: []any{int64(t)}})
+	}
+	calls = append(calls,
+		chainx.Call{Hash: nativehashes.OracleContract, Method: "getPrice"},
+		chainx.Call{Hash: nativehashes.NeoToken, Method: "getRegisterPrice"})
+	ints := invokeInts(w, bc, calls)
+	var out []string
+	for i, t := range attrTypes {
+		out = append(out, fmt.Sprintf("af%d:%s/%s", t, ints[i], storedInt(bc, nativeids.PolicyContract, []byte{20, byte(t)})))
+	}
+	nvbd, _ := bc.GetMaxNotValidBeforeDelta()
+	out = append(out,
+		fmt.Sprintf("vubi:%d/%s", bc.GetMaxValidUntilBlockIncrement(), storedInt(bc, nativeids.PolicyContract, []byte{22})),
+		fmt.Sprintf("mtb:%d/%s", bc.GetMaxTraceableBlocks(), storedInt(bc, nativeids.PolicyContract, []byte{23})),
+		fmt.Sprintf("mspb:%d/%s", bc.GetMillisecondsPerBlock(), storedInt(bc, nativeids.PolicyContract, []byte{21})),
+		fmt.Sprintf("nvbd:%d/%s", nvbd, storedInt(bc, nativeids.Notary, []byte{10})),
+		fmt.Sprintf("oprice:%s/%s", ints[len(attrTypes)], storedInt(bc, nativeids.OracleContract, []byte{5})),
+		fmt.Sprintf("regprice:%s/%s", ints[len(attrTypes)+1], storedInt(bc, nativeids.NeoToken, []byte{13})))
+	return strings.Join(out, ",")
+}
+
+var roleIDs = []noderoles.Role{noderoles.StateValidator, noderoles.Oracle, noderoles.NeoFSAlphabet, noderoles.P2PNotary}
+
+func sortedIdx(net *chainx.Net, pubs keys.PublicKeys) string {
+	idx := make([]int, len(pubs))
+	for i, p := range pubs {
+		idx[i] = net.IndexOf(p)
+	}
+	sort.Ints(idx)
+	ss := make([]string, len(idx))
+	for i, x := range idx {
+		ss[i] = fmt.Sprint(x)
+	}
+	return joinOrDashSep(ss, ".")
+}
+
+func joinOrDashSep(s []string, sep string) string {
+	if len(s) == 0 {
+		return "-"
+	}
+	return strings.Join(s, sep)
+}
+
+// rolesObs: per role, the cached latest designation (height:nodes) / the stored record with the greatest
+// activation height and the number of stored records.
+func rolesObs(w *world, bc *core.Blockchain) string {
+	var out []string
+	for _, r := range roleIDs {
+		ks, hh, err := bc.GetDesignatedByRole(r)
+		cached := fmt.Sprintf("%d:%s", hh, sortedIdx(w.net, ks))
+		if err != nil {
+			cached = "err"
+		}
+		bestH, bestN, n := uint32(0), "-", 0
+		bc.SeekStorage(nativeids.RoleManagement, []byte{byte(r)}, func(k, v []byte) bool {
+			if len(k) != 4 {
+				return true
+			}
+			n++
+			h := uint32(k[0])<<24 | uint32(k[1])<<16 | uint32(k[2])<<8 | uint32(k[3])
+			if h >= bestH {
+				bestH = h
+				var pubs keys.PublicKeys
+				if it, err := stackitem.Deserialize(v); err == nil {
+					for _, e := range it.Value().([]stackitem.Item) {
+						b, _ := e.TryBytes()
+						if pk, err := keys.NewPublicKeyFromBytes(b, elliptic.P256()); err == nil {
+							pubs = append(pubs, pk)
+						}
+					}
+				}
+				bestN = sortedIdx(w.net, pubs)
+			}
+			return true
+		})
+		out = append(out, fmt.Sprintf("%d=%s/%d:%s:%d", r, cached, bestH, bestN, n))
+	}
+	return strings.Join(out, ",")
+}
+
+// mgmtObs: per generated contract (every generation), cached id:updateCounter / stored id:updateCounter, and the
+// stored next contract id.
+func mgmtObs(w *world, bc *core.Blockchain) string {
+	var toks []string
+	byTok := map[string]util.Uint160{}
+	for h, t := range w.toks {
+		if w.mgmtToks[t] { // contracts whose deployment transaction was part of a block
+			toks = append(toks, t)
+			byTok[t] = h
+		}
+	}
+	sort.Strings(toks)
+	var out []string
+	for _, t := range toks {
+		h := byTok[t]
+		cached, stored := "-", "-"
+		if cs := bc.GetContractState(h); cs != nil {
+			cached = fmt.Sprintf("%d:%d", cs.ID, cs.UpdateCounter)
+		}
+		if si := bc.GetStorageItem(nativeids.ContractManagement, append([]byte{8}, h.BytesBE()...)); si != nil {
+			cs := new(state.Contract)
+			if err := stackitem.DeserializeConvertible(si, cs); err == nil {
+				stored = fmt.Sprintf("%d:%d", cs.ID, cs.UpdateCounter)
+			} else {
+				stored = "?"
+			}
+		}
+		out = append(out, fmt.Sprintf("%s=%s/%s", t, cached, stored))
+	}
+	return joinOrDash(out) + " next=" + storedInt(bc, nativeids.ContractManagement, []byte{15})
+}
+
+// gpbObs: NEO.getGasPerBlock (cache, for the next block) / the stored records index:value.
+func gpbObs(w *world, bc *core.Blockchain) string {
+	c := invokeInts(w, bc, []chainx.Call{{Hash: nativehashes.NeoToken, Method: "getGasPerBlock"}})[0]
+	var recs []string
+	bc.SeekStorage(nativeids.NeoToken, []byte{29}, func(k, v []byte) bool {
+		if len(k) == 4 {
+			recs = append(recs, fmt.Sprintf("%d:%s", uint32(k[0])<<24|uint32(k[1])<<16|uint32(k[2])<<8|uint32(k[3]), bigFromLE(v)))
+		}
+		return true
+	})
+	return c + "/" + joinOrDashSep(recs, ";")
 }
 
 func joinOrDash(s []string) string {
